@@ -87,6 +87,8 @@ def c12_oracle(pre, op, obs, post, gf):
 
 def c04_oracle(b, live, pats):
     cap = b.capacity
+    if len(b.buffer) != cap:       # the capacity the allocator hands regions out of IS the storage
+        return "capacity %d but the storage holds %d bytes" % (cap, len(b.buffer))
     rs = sorted(live)
     for (o, s, a) in rs:
         if o < 0 or o + s > cap:
@@ -193,6 +195,14 @@ def run_walk(cfg, ops_or_gen, rng=None, nsteps=0, probe=True):
         k += 1
         if len(walk["steps"]) > 400:
             break
+    if not explicit and rng is not None and rng.random() < 0.35:
+        # a request no machine can honour: it is refused and the allocator is as it was; the next request is served
+        # from real storage
+        pre = snap(b)
+        obs = do_op(b, ["alloc", 1 << 62, 1], live, pats, tagc)
+        post = snap(b)
+        obs2 = do_op(b, ["alloc", 16, 1], live, pats, tagc)
+        walk["refusal_probe"] = {"obs": obs, "state_changed": pre != post, "then": obs2, "c04": c04_oracle(b, live, pats)}
     return walk
 
 
